@@ -471,7 +471,11 @@ class C11(Check):
     CASE_TYPE = "case"
     N_QUICK = 800
     N_THOROUGH = 20000
-    RULE = ("a case is a HISTORY of 1..5 fold / fold_enhanced calls (plus occasional register_co_chaperone / reset_statistics) "
+    RULE = ("a case is a HISTORY of 1..5 fold / fold_enhanced calls (plus occasional register_co_chaperone / reset_statistics, and in "
+            "30% of the non-pair histories one or two ChaperoneLoop.heal runs driving the same object: confidence_decay from "
+            "{0.1 (default), 0.25, 0.4, 0.5, 0.3, 0.05, 0, 1, 1.5, 0.34, 0.125, 0.9, 1e-3, 2^-60, -0.25}, a generator that resubmits "
+            "unfoldable text 0..13 times (drawn around the point where retries x decay crosses 1) and then produces clean or "
+            "corrupted JSON, max_retries just enough / one more / one too few / 3 / 0 / -1) "
             "on ONE Chaperone object: the text of a call is usually byte-identical to an earlier one, the schema usually the "
             "same, the per-call strategies override varies (None, the case's list, single strategies, random orders/subsets with "
             "duplicates); 35% of the cases are the pair fold;fold_enhanced with identical arguments. Texts: a generated pydantic "
@@ -482,7 +486,9 @@ class C11(Check):
             "scalar/degenerate text; constructor strategies default/STRICT-first/random; optional co-chaperone (identity/braces/"
             "const/raising) and on_misfold (recording/raising). Enumerated: every strategy list of length <= 2 (quick) / <= 3 "
             "(thorough) x 14 canonical texts as fold;fold_enhanced, and every ordered pair A,B of {default,[S],[E],[L],[R]} x 14 texts "
-            "as fold_enhanced(A);fold_enhanced(B);fold(B) on one object. non-trivial = some corruption, non-default strategies, "
+            "as fold_enhanced(A);fold_enhanced(B);fold(B) on one object, and the healing-loop grid decay in {0.1,0.25,0.4,0.5,1,1.5,0} x "
+            "0..5 failed generations (0.1 also 9..13) x max_retries enough / one too few x final text clean (STRICT) / fenced "
+            "(EXTRACTION) (thorough: 8 more decays x 0..11 failures). non-trivial = some corruption, non-default strategies, "
             "callback or more than one call; distinct by case content")
     LEVEL_TEXT = ("Coq theorems, for all raw texts, schemas, strategy lists and ALL behaviours of json/re/str.strip/pydantic/"
                   "coercion/co-chaperone/on_misfold (return anything or raise any Exception class at any call), about an "
@@ -494,9 +500,14 @@ class C11(Check):
                   "returns that instance with confidence 1 and no coercion; neither fold raises unless a user callback does; "
                   "and for every HISTORY of calls on one object (state = counters + co-chaperone registry) each call returns "
                   "exactly what it returns on a fresh Chaperone (c11_history_independent), so every per-call theorem holds at "
-                  "every point of every history. Proved by induction over the call list, the strategy list, the pattern lists "
+                  "every point of every history; and for ChaperoneLoop.heal over ANY generator, max_retries and confidence_decay: a "
+                  "reported fold is the valid fold_enhanced result of a generation within the retry budget (structure validated from "
+                  "THAT text), its confidence min(c, max(0, 1 - k*decay)) lies in [0,1] and is 1 only for STRICT, final_confidence "
+                  "reports it, a degraded result carries no fold and only failed attempts with error traces, heal returns whenever "
+                  "the callbacks do, counters advance by one per attempt (c11_heal_*). Proved by induction over the call list, the strategy list, the pattern lists "
                   "and the match lists. The model is tied to the code by replaying, inside Coq, the oracle answers recorded "
-                  "from every implementation history and comparing per call the results, statistics, confidences (bit-exact "
+                  "from every implementation history (for a heal: of every fold_enhanced it makes, per generation) and comparing per call the results, "
+                  "HealingResult fields and RefoldingAttempt records, statistics, confidences (bit-exact "
                   "binary64) and the sequence of oracle calls.")
     LEVEL_NOTE = ("Trusts: Coq kernel+VM; the recording harness; json, re, str.strip, pydantic and the coercion table are "
                   "oracles (their answers are recorded, not modelled), so that findall returns substrings and sub returns a "
@@ -514,11 +525,14 @@ class C11(Check):
                "confidence: theorems over Q with decimal literals read exactly; correspondence is bit-exact on binary64 (PrimFloat)",
                "error strings are compared by shape (prefix / fixed text), durations are not modelled",
                "instance state modelled: the four statistics counters and the co_chaperones dict; strategies, on_misfold, silent "
-               "and max_retries are set by the constructor only"]
+               "and max_retries are set by the constructor only",
+               "ChaperoneLoop: the generator is a deterministic user callback (its k-th call returns a text; the error context "
+               "it is handed is not observed); confidence_decay is a finite binary64 value passed to the model exactly as m*2^e"]
     ASSUMPTIONS = ["raw_peptide_chain is a str and target_schema a pydantic BaseModel subclass",
                    "strategy lists contain FoldingStrategy members only",
                    "fold may raise only if the registered co-chaperone or the on_misfold callback raises",
-                   "calls on one Chaperone object are sequential"]
+                   "calls on one Chaperone object are sequential",
+                   "ChaperoneLoop: max_retries is an int, confidence_decay a finite float, the generator returns str and does not raise"]
 
     # -- generation --------------------------------------------------------
     @staticmethod
@@ -733,8 +747,8 @@ class C11(Check):
                              ["reset"], ["enh", 1, 1, [1, 0]]], "tags": ["corpus"]})
         # late heals: the retry count times the decay passes 1 (confidence must stay in [0,1])
         good = self.CANON_RAW[0]
-        base.append(self.heal_case(self.CANON_SPEC, ["nothing"] * 3 + [good], 3, 0.4, tags=["corpus"]))
-        base.append(self.heal_case(self.CANON_SPEC, ["nothing"] * 12 + [good], 12, 0.1, pre=[("enh", None)], post=[("fold", None)],
+        base.append(self.heal_case(self.CANON_SPEC, ["nothing"] * 4 + [good], 5, 0.3, tags=["corpus"]))
+        base.append(self.heal_case(self.CANON_SPEC, ["nothing"] * 11 + [good], 11, 0.1, pre=[("enh", None)], post=[("fold", None)],
                                    tags=["corpus"]))
         base.append(self.heal_case(self.CANON_SPEC, ["{", "{", self.CANON_RAW[3]], 2, 0.5, ctor=[3, 0], tags=["corpus"]))
         base.append(self.heal_case(self.CANON_SPEC, ["nothing", "nothing"], 1, 0.1, tags=["corpus"]))
